@@ -2,6 +2,7 @@ package c08
 
 import (
 	"fmt"
+	"strings"
 
 	"verifharness/kit"
 )
@@ -108,7 +109,16 @@ func genNode(r *kit.Rand, size int, cfgNo int) (mode string, ops []string) {
 //	     reconciling UpdateEvent, … and, when it is the last one, the same as class a).
 func crashLines(ops []string, class string, maxTx int) []string {
 	var out []string
+	lastV1 := -1
+	for k, o := range ops {
+		if strings.HasPrefix(o, "v1 ") {
+			lastV1 = k
+		}
+	}
 	for k := range ops {
+		if k < lastV1 || (k == lastV1 && class != "a") {
+			continue // the version 1 content is migrated in one go at the first Open
+		}
 		switch class {
 		case "a":
 			out = append(out, fmt.Sprintf("crash %d 0 post", k))
@@ -131,6 +141,59 @@ func mkCase(mode string, ops []string, class string, maxTx int) []string {
 	return append(lines, crashLines(ops, class, maxTx)...)
 }
 
+// crash2Lines samples pairs of crash points (the second one relative to the operations remaining after the
+// first); directed at "first crash in the middle of an operation, second crash early in the restarted run".
+func crash2Lines(r *kit.Rand, first, nOps, n, maxTx int) []string {
+	var out []string
+	ph := []string{"pre", "post"}
+	for i := 0; i < n && nOps-first >= 2; i++ {
+		k := first + r.Intn(nOps-first-1)
+		m, p := r.Range(1, maxTx), kit.Pick(r, ph)
+		if r.Chance(1, 4) {
+			m, p = 0, "post"
+		}
+		rest := nOps - k - 1
+		k2 := 0
+		if r.Chance(1, 3) {
+			k2 = r.Intn(rest)
+		}
+		m2, p2 := r.Range(1, maxTx), kit.Pick(r, ph)
+		if r.Chance(1, 4) {
+			m2, p2 = 0, "post"
+		}
+		out = append(out, fmt.Sprintf("crash2 %d %d %s %d %d %s", k, m, p, k2, m2, p2))
+	}
+	return out
+}
+
+// withFailures marks some operations that have a storage transaction as failing.
+func withFailures(r *kit.Rand, ops []string) []string {
+	out := make([]string, len(ops))
+	for i, o := range ops {
+		out[i] = o
+		if (strings.HasPrefix(o, "collect ") || strings.HasPrefix(o, "update ") || strings.HasPrefix(o, "deltopic ")) && r.Chance(1, 4) {
+			out[i] = "failtx 1 " + o
+		}
+	}
+	return out
+}
+
+// v1Lines: event states that exist in the VERSION 1 topic store layout before the first Open.
+func v1Lines(r *kit.Rand, mode string) []string {
+	topics := strings.Fields(mode)[2:]
+	var out []string
+	used := map[string]bool{}
+	for n := r.Range(1, 4); n > 0; n-- {
+		T, id := kit.Pick(r, topics), kit.Pick(r, idPool)
+		if used[T+"/"+id] {
+			continue
+		}
+		used[T+"/"+id] = true
+		out = append(out, fmt.Sprintf("v1 %s %s %d %d", T, kit.Esc(id), r.Intn(4), 500+len(out)))
+	}
+	return out
+}
+
 func generate(out *kit.Out, f kit.Flags) int {
 	r := kit.NewRand(f.Seed)
 	for i := 0; i < f.N; i++ {
@@ -147,6 +210,13 @@ func generate(out *kit.Out, f kit.Flags) int {
 					return rc
 				}
 			}
+			if len(ops) >= 3 {
+				lines := append(append([]string{mode}, ops...), "uninterrupted")
+				lines = append(lines, crash2Lines(rr, 0, len(ops), 5, 2)...)
+				if rc := runAndEmit(out, fmt.Sprintf("n%dd", i), lines); rc != 0 {
+					return rc
+				}
+			}
 			continue
 		}
 		size := 3 + rr.Intn(9)
@@ -154,8 +224,27 @@ func generate(out *kit.Out, f kit.Flags) int {
 			size = 3 + rr.Intn(20)
 		}
 		mode, ops := genSvc(rr, size)
+		switch i % 8 {
+		case 1: // storage failures
+			ops = withFailures(rr, ops)
+		case 5: // the store starts in the version 1 layout: MigrateTopicStoreV1V2 runs at the first Open
+			ops = append(v1Lines(rr, mode), ops...)
+		}
 		for _, class := range []string{"a", "b"} {
 			if rc := runAndEmit(out, fmt.Sprintf("s%d%s", i, class), mkCase(mode, ops, class, 1)); rc != 0 {
+				return rc
+			}
+		}
+		if i%2 == 0 {
+			lines := append(append([]string{mode}, ops...), "uninterrupted")
+			first := 0
+			for k, o := range ops {
+				if strings.HasPrefix(o, "v1 ") {
+					first = k + 1
+				}
+			}
+			lines = append(lines, crash2Lines(rr, first, len(ops), 6, 1)...)
+			if rc := runAndEmit(out, fmt.Sprintf("s%dd", i), lines); rc != 0 {
 				return rc
 			}
 		}
